@@ -58,7 +58,7 @@ enum {
   MVP_ONCE_A = 470, MVP_ONCE_B = 471, MVP_ONCE_C = 472,
   MVP_FE_A = 480, MVP_FE_B = 481,
   /* scheduler loop */
-  MVS_IDLE = 500, MVP_SCHED_RUN = 501,
+  MVS_IDLE = 500, MVP_SCHED_RUN = 501, MVP_STEAL = 502,
   /* thread specific data */
   MVP_KEY_ALLOC_A = 600, MVP_KEY_ALLOC_B = 601, MVP_KEY_FREE_A = 602, MVP_KEY_FREE_B = 603,
   /* pthread wrapper */
